@@ -114,6 +114,8 @@ const prelude = `(set-option :produce-models true)
 (assert (forall ((k Int)) (! (=> (>= k 0) (= (pow2 (+ k 1)) (* 2 (pow2 k)))) :pattern ((pow2 (+ k 1))))))
 (assert (forall ((a Int) (b Int)) (! (=> (and (<= 0 a) (<= a b)) (<= (pow2 a) (pow2 b))) :pattern ((pow2 a) (pow2 b)))))
 (declare-fun typeimpl (Int Int) Bool)
+(declare-fun refkind (Int) Int)
+(declare-fun refroot (Int) Int)
 (declare-fun sidx (Int Int) Int)
 (assert (forall ((o Int) (i Int)) (! (= (sidx o i) (+ o i)) :pattern ((sidx o i)))))
 `
@@ -592,10 +594,68 @@ func (u *Unit) fieldComp(structT types.Type, field string) (name, sort string) {
 	if ft == nil {
 		panic("no field " + field + " in " + shortType(structT))
 	}
+	if isFlattened(ft) {
+		panic("fieldComp on flattened field " + field + " of " + shortType(structT))
+	}
 	sort = "(Array Int " + u.sortOf(ft) + ")"
 	u.heapSorts[name] = sort
 	u.heapKinds[name] = "field"
 	return
+}
+
+// isFlattened: struct- and array-typed fields of heap objects live at derived references
+// (sub$S$f ref), so that interior pointers to them are first-class values.
+func isFlattened(ft types.Type) bool {
+	switch ft.Underlying().(type) {
+	case *types.Struct, *types.Array:
+		return true
+	}
+	return false
+}
+
+// subRef returns the derived reference of a struct/array-typed field of the object at ref.
+func (u *Unit) subRef(structT types.Type, field string, ref string) string {
+	fn := q("sub$" + shortType(structT) + "$" + field)
+	if !u.declSeen[fn] {
+		u.declSeen[fn] = true
+		par := q("par$" + shortType(structT) + "$" + field)
+		id := u.eng.typeID2("sub$" + shortType(structT) + "$" + field)
+		u.decls = append(u.decls, fmt.Sprintf("(declare-fun %s (Int) Int)", fn))
+		u.decls = append(u.decls, fmt.Sprintf("(declare-fun %s (Int) Int)", par))
+		u.decls = append(u.decls, fmt.Sprintf("(assert (forall ((r Int)) (! (and (= (%s (%s r)) r) (= (refkind (%s r)) %d) (> (%s r) 0) (= (refroot (%s r)) (refroot r))) :pattern ((%s r)))))", par, fn, fn, id, fn, fn, fn))
+	}
+	return fmt.Sprintf("(%s %s)", fn, ref)
+}
+
+// structObjTerm assembles the value of the struct object at ref from the heap (hf gives the
+// current version of a component).
+func (u *Unit) structObjTerm(hf func(string) string, ref string, structT types.Type) string {
+	u.sortOf(structT)
+	s := structT.Underlying().(*types.Struct)
+	var parts []string
+	for i := 0; i < s.NumFields(); i++ {
+		ft := s.Field(i).Type()
+		if isFlattened(ft) {
+			sr := u.subRef(structT, s.Field(i).Name(), ref)
+			if at, ok := ft.Underlying().(*types.Array); ok {
+				comp, _ := u.elemComp(at.Elem())
+				parts = append(parts, fmt.Sprintf("(select %s %s)", hf(comp), sr))
+			} else {
+				parts = append(parts, u.structObjTerm(hf, sr, ft))
+			}
+			continue
+		}
+		comp, _ := u.fieldComp(structT, s.Field(i).Name())
+		parts = append(parts, fmt.Sprintf("(select %s %s)", hf(comp), ref))
+	}
+	for _, g := range u.ghostFields(structT) {
+		comp, _ := u.fieldComp(structT, g.name)
+		parts = append(parts, fmt.Sprintf("(select %s %s)", hf(comp), ref))
+	}
+	if len(parts) == 0 {
+		return u.structCtor(structT)
+	}
+	return "(" + u.structCtor(structT) + " " + strings.Join(parts, " ") + ")"
 }
 
 func (u *Unit) elemComp(elemT types.Type) (name, sort string) {
